@@ -38,6 +38,12 @@ class Rec:
         return getattr(self.local, "sender", 0) or _sender.get()
 
 
+def harness_empty():
+    class EmptyListener:
+        pass
+    return EmptyListener()
+
+
 def evkey(ev):
     return f"n{ev['n']}" if ev["nested"] else f"{ev['s']}:{ev['n']}"
 
@@ -71,7 +77,7 @@ def build_machine(total, plan, rec, use_async=False, yields=0):
         def on_tick(self, who=None):
             s = body_pre(self, who)
             if evkey(who) in plan.get("listen", []):
-                self.add_listener(type("EmptyListener", (), {})())     # a listener without callbacks: nothing changes
+                self.add_listener(harness_empty())     # a listener without callbacks: nothing changes
             if evkey(who) in plan.get("nested", []):
                 rec.nested += 1
                 k = rec.nested
@@ -88,7 +94,7 @@ def build_machine(total, plan, rec, use_async=False, yields=0):
             for _ in range(yields):
                 await asyncio.sleep(0)
             if evkey(who) in plan.get("listen", []):
-                self.add_listener(type("EmptyListener", (), {})())
+                self.add_listener(harness_empty())
             if evkey(who) in plan.get("nested", []):
                 rec.nested += 1
                 k = rec.nested
